@@ -27,7 +27,7 @@ import (
 )
 
 type c37In struct {
-	Reader string `json:"reader"` // ivf | ogg | oggnocrc | h264 | h264sei | h265 | h265sei | rtpdump | opushead | opustags
+	Reader string `json:"reader"` // ivf | oggnew | oggcrc | oggnocrc | h264 | h264sei | h265 | h265sei | rtpdump | opushead | opustags
 	Hex    string `json:"hex"`
 	Chunk  int    `json:"chunk"` // max bytes per Read of the underlying stream (0 = all)
 	Mut    string `json:"mut"`   // how the input was derived (for the distribution)
@@ -51,17 +51,17 @@ func c37ErrClass(err error) string {
 		return "eof"
 	}
 	if errors.Is(err, io.ErrUnexpectedEOF) {
-		return "unexpected-eof"
+		return "unexpected-EOF"
 	}
 	s := err.Error()
 	for _, kv := range [][2]string{
 		{"incomplete frame header", "incomplete-frame-header"}, {"incomplete frame data", "incomplete-frame-data"},
 		{"incomplete file header", "incomplete-file-header"}, {"IVF signature mismatch", "signature"},
 		{"IVF version unknown", "version"}, {"invalid media timebase", "timebase"},
-		{"bad header signature", "page-signature"}, {"bad opus tags signature", "tags-signature"},
-		{"wrong header, expected beginning", "id-page-type"}, {"payload for id page", "id-page-length"},
+		{"bad header signature", "id-signature"}, {"bad opus tags signature", "tags"},
+		{"wrong header, expected beginning", "id-type"}, {"payload for id page", "id-length"},
 		{"bad payload signature", "id-payload-signature"}, {"not enough data for payload header", "short-page-header"},
-		{"checksum do not match", "checksum"}, {"unsupported channel mapping", "mapping-family"},
+		{"checksum do not match", "checksum"}, {"unsupported channel mapping", "unsupported-family"},
 		{"malformed rtpdump", "malformed"}, {"stream is nil", "nil"},
 		{"data is not a H264 bitstream", "notstream"}, {"data is not a H265/HEVC bitstream", "notstream"},
 	} {
@@ -113,20 +113,23 @@ func c37Run(in c37In) (V, Verdict) {
 			fin(err)
 			break
 		}
-		obs = append(obs, VL{VS("hdr"), VHex([]byte(hdr.FourCC)), VZ(int64(hdr.Width)), VZ(int64(hdr.Height)),
-			VZ(int64(hdr.TimebaseDenominator)), VZ(int64(hdr.TimebaseNumerator)), VZ(int64(hdr.NumFrames))})
+		_ = hdr
+		obs = append(obs, VL{VS("ok"), VZ(32)})
 		loop(func() (int, error) {
 			p, _, err := r.ParseNextFrame()
 			return len(p), err
 		})
-	case "ogg", "oggnocrc":
-		var r *oggreader.OggReader
-		var err error
-		if in.Reader == "ogg" {
-			r, _, err = oggreader.NewWith(src)
-		} else {
-			r, err = oggreader.NewWithOptions(src, oggreader.WithDoChecksum(false))
+	case "oggnew":
+		_, h, err := oggreader.NewWith(src)
+		if err != nil {
+			fin(err)
+			break
 		}
+		stage = "read"
+		okCalls++
+		obs = append(obs, VL{VS("ok"), VZ(int64(h.Channels))})
+	case "oggcrc", "oggnocrc":
+		r, err := oggreader.NewWithOptions(src, oggreader.WithDoChecksum(in.Reader == "oggcrc"))
 		if err != nil {
 			fin(err)
 			break
@@ -177,14 +180,15 @@ func c37Run(in c37In) (V, Verdict) {
 		if err != nil {
 			fin(err)
 		} else {
-			obs = append(obs, VL{VS("ok"), VZ(int64(h.Channels)), VZ(int64(h.ChannelMap))})
+			_ = h.Channels
+			obs = append(obs, VL{VS("ok"), VZ(int64(len(h.ChannelMapping)))})
 		}
 	case "opustags":
 		t, err := oggreader.ParseOpusTags(data)
 		if err != nil {
 			fin(err)
 		} else {
-			obs = append(obs, VL{VS("ok"), VZ(int64(len(t.Vendor))), VZ(int64(len(t.UserComments)))})
+			obs = append(obs, VL{VS("ok"), VZ(int64(len(t.UserComments)))})
 		}
 	default:
 		panic("unknown reader " + in.Reader)
@@ -399,7 +403,7 @@ func c37Valid(r *Rand, reader string) []byte {
 	switch reader {
 	case "ivf":
 		return c37IVF(r)
-	case "ogg", "oggnocrc":
+	case "oggnew", "oggcrc", "oggnocrc":
 		return c37Ogg(r)
 	case "h264", "h264sei":
 		return c37AnnexB(r, false)
@@ -415,7 +419,7 @@ func c37Valid(r *Rand, reader string) []byte {
 	panic(reader)
 }
 
-var c37Readers = []string{"ivf", "ogg", "oggnocrc", "h264", "h264sei", "h265", "h265sei", "rtpdump", "opushead", "opustags"}
+var c37Readers = []string{"ivf", "oggnew", "oggcrc", "oggnocrc", "h264", "h264sei", "h265", "h265sei", "rtpdump", "opushead", "opustags"}
 
 func c37Mutate(r *Rand, data []byte) ([]byte, string) {
 	d := append([]byte(nil), data...)
@@ -496,7 +500,7 @@ func init() {
 		Gen: func(r *Rand, i int) c37In {
 			reader := c37Readers[i%len(c37Readers)]
 			d, mut := c37Mutate(r, c37Valid(r, reader))
-			if (reader == "ogg" || reader == "oggnocrc") && r.Chance(1, 2) {
+			if strings.HasPrefix(reader, "ogg") && r.Chance(1, 2) {
 				d, mut = c37OggStructured(r), "valid-crc-mutated-payload"
 			}
 			if (reader == "opushead" || reader == "opustags") && r.Chance(1, 4) {
